@@ -9,6 +9,7 @@ from hypothesis import strategies as st
 from vlib.dsched import core, loader
 
 PATHS = ["/p0", "/p1", "/p2"]
+MARKER = 9999
 
 
 def make_main(prog, *, emitter_fault=None, on_ready=None):
@@ -111,6 +112,8 @@ def make_main(prog, *, emitter_fault=None, on_ready=None):
             def on_any_event(self, event):
                 path, _, name = event.src_path.rpartition("/")
                 s.record("cb", (self.hid, path, int(name[1:])))
+                if int(name[1:]) == MARKER:
+                    return  # the final-state probe must not trigger the handler's own re-entrant call
                 self.n += 1
                 re = self.spec.get("reentrant")
                 if re and re["at"] == self.n:
@@ -127,6 +130,13 @@ def make_main(prog, *, emitter_fault=None, on_ready=None):
             t.join()
         tm.sleep(6.0)
         s.record("quiescent", None)
+        # final-state probe: a marker event through every live emitter shows who is registered for its watch now
+        live = sorted((e for e in obs.emitters if e.is_alive()), key=lambda e: e.watch.path)
+        s.record("final_emitters", [e.watch.path for e in obs.emitters])
+        for e in live:
+            e.queue_event(ev.FileCreatedEvent(f"{e.watch.path}/e{MARKER}"))
+        tm.sleep(3.0)
+        s.record("final_probe_done", [e.watch.path for e in live])
         if on_ready:
             on_ready(s, obs, handlers, do_call)
         for form in prog.get("late", []):
@@ -151,6 +161,9 @@ class History:
         self.emitter_end = {}  # inst -> seq
         self.quiescent = None
         self.faults = []
+        self.marker_cbs = []
+        self.final_emitters = None
+        self.final_probed = None
         for seq, tid, tag, p in log:
             if tag == "call_inv":
                 self.calls[p[0]] = {"form": p[1], "who": p[2], "inv": seq, "ret": None, "out": None, "tid": tid}
@@ -160,7 +173,14 @@ class History:
             elif tag == "queued":
                 self.queued.append((seq,) + tuple(p))
             elif tag == "cb":
-                self.cbs.append((seq,) + tuple(p))
+                if p[2] == MARKER:
+                    self.marker_cbs.append((seq,) + tuple(p))
+                else:
+                    self.cbs.append((seq,) + tuple(p))
+            elif tag == "final_emitters":
+                self.final_emitters = list(p)
+            elif tag == "final_probe_done":
+                self.final_probed = list(p)
             elif tag == "emitter_new":
                 self.emitter_new.append((seq,) + tuple(p))
             elif tag == "emitter_end":
@@ -274,3 +294,83 @@ def programs(draw, *, removal_heavy=False, max_threads=2):
 
 
 LINES = ("api", "bricks", "queue", "utils")
+
+
+# ----------------------------------------------------------------------------- final state vs. linearizations
+
+
+def final_state_violation(h, cap=30000):
+    """The observer must end up in the state of SOME linearization of the API calls (a simple map from watches to
+    handler sets): the set of emitters and the receivers of a marker event queued through every live emitter at
+    quiescence are compared with the reference map after every order of the calls that respects real time and
+    reproduces every call's outcome (ok / KeyError).  Returns a message or None; None also when the search is cut."""
+    if h.final_emitters is None or h.quiescent is None:
+        return None
+    calls = [c for c in h.calls.values() if c["form"][0] in ("schedule", "unschedule", "add", "remove", "unschedule_all") and c["inv"] < h.quiescent]
+    if any(c["out"] not in ("ok", "KeyError") for c in calls):
+        return None
+    calls.sort(key=lambda c: c["inv"])
+    n = len(calls)
+    if n > 12:
+        return None
+    before = [[j for j in range(n) if calls[j]["ret"] < calls[i]["inv"]] for i in range(n)]
+    obs_emitters = sorted(set(h.final_emitters))
+    if len(obs_emitters) != len(h.final_emitters):
+        return f"two emitters for one watch at quiescence: {h.final_emitters}"
+    obs_recv = {p: sorted({cb[1] for cb in h.marker_cbs if cb[2] == p}) for p in (h.final_probed or [])}
+    budget = [cap]
+    found = [False]
+
+    def apply(state, c):
+        em, hd = state
+        f = c["form"]
+        k = f[0]
+        if k == "schedule":
+            p = h.paths[f[2]]
+            hd2 = dict(hd)
+            hd2[p] = hd.get(p, frozenset()) | {f[1]}
+            return (em | {p}, hd2), "ok"
+        if k == "unschedule":
+            p = h.paths[f[1]]
+            if p not in em:
+                return state, "KeyError"
+            hd2 = {q: v for q, v in hd.items() if q != p}
+            return (em - {p}, hd2), "ok"
+        if k == "add":
+            p = h.paths[f[2]]
+            hd2 = dict(hd)
+            hd2[p] = hd.get(p, frozenset()) | {f[1]}
+            return (em, hd2), "ok"
+        if k == "remove":
+            p = h.paths[f[2]]
+            if f[1] not in hd.get(p, frozenset()):
+                return state, "KeyError"
+            hd2 = dict(hd)
+            hd2[p] = hd[p] - {f[1]}
+            return (em, hd2), "ok"
+        return (frozenset(), {}), "ok"  # unschedule_all
+
+    def rec(done, state):
+        if found[0] or budget[0] <= 0:
+            return
+        budget[0] -= 1
+        if len(done) == n:
+            em, hd = state
+            if sorted(em) == obs_emitters and all(sorted(hd.get(p, ())) == obs_recv.get(p, []) for p in obs_recv):
+                found[0] = True
+            return
+        for i in range(n):
+            if i in done or any(j not in done for j in before[i]):
+                continue
+            st2, out = apply(state, calls[i])
+            if out != calls[i]["out"]:
+                continue
+            rec(done | {i}, st2)
+
+    rec(frozenset(), (frozenset(), {}))
+    if found[0] or budget[0] <= 0:
+        return None
+    return (
+        f"at quiescence the observer has emitters for {obs_emitters} and a marker event reached handlers {obs_recv}; no order of the API calls "
+        f"{[(c['form'], c['who'], c['out'], c['inv'], c['ret']) for c in calls]} that respects their real-time order and outcomes leads a watch->handlers map to that state"
+    )
